@@ -133,7 +133,7 @@ def check_wire(ctx, case):
 
 
 def part_wire(ctx):
-    n = 250 if ctx.tier == "quick" else 5000
+    n = 700 if ctx.tier == "quick" else 5000
     hyp_run(ctx, CASE, lambda c: check_wire(ctx, c), n, name="wire")
 
 
